@@ -108,7 +108,19 @@ def main():
     mod = importlib.import_module(job["contract_module"])
     from pyvc.contract import REGISTRY
     con = REGISTRY[job["key"]]
-    hooks = getattr(mod, "CONCRETE")[job["key"]]
+    if job.get("lemma"):
+        # generic replay of a lemma: its harness body is executed in the real module's namespace
+        def build(inputs, con=con):
+            m = importlib.import_module(con.lemma_module)
+            ns = dict(vars(m))
+            exec(con.lemma_src, ns)
+            import ast as _ast
+            fname = _ast.parse(con.lemma_src).body[0].name
+            args = [inputs[p] for p in con.params]
+            return {"call": ns[fname], "args": args, "env": dict(inputs)}
+        hooks = {"build": build}
+    else:
+        hooks = getattr(mod, "CONCRETE")[job["key"]]
     timeout_s = job.get("timeout_s", 2.0)
     out = {"evaluations": 0, "violations": [], "problems": [], "samples": [], "distinct_nontrivial": 0,
            "outcomes": {}}
